@@ -317,6 +317,20 @@ def run_program(case, drive, twice=False):
                 b = s + ln * (drive[1] / 10.0)
                 b = [float(b).hex(), "s"] if prog["clock"] == "duration" else float(b).hex()
             h.run_piece(["run_up_to_incl", b])
+        elif drive[0] == "bounded-x":
+            # an exclusive bound inside the replication, then an exclusive bound beyond its end: everything up to and
+            # including the end is carried out
+            s, ln = dec_ref(prog["rep"]["start"]), dec_ref(prog["rep"]["length"])
+            if prog["clock"] == "int":
+                b, far = s + (ln * drive[1]) // 10, s + ln + 7
+            else:
+                b, far = s + ln * (drive[1] / 10.0), s + ln * 1.5 + 1.0
+                if prog["clock"] == "duration":
+                    b, far = [float(b).hex(), "s"], [float(far).hex(), "s"]
+                else:
+                    b, far = float(b).hex(), float(far).hex()
+            h.run_piece(["run_up_to", b])
+            h.run_piece(["run_up_to", far])
         elif drive[0] == "steps":
             for _ in range(drive[1]):
                 h.run_piece(["step"])
